@@ -55,6 +55,8 @@ type c18Case struct {
 	Form    int      `json:"form,omitempty"` // 0 string 1 octets 2 stream 3 file
 	// config family: the history of settings of *bag-time-format* / *bag-time-wrap* before the parse
 	History []c18CfgStep `json:"history,omitempty"`
+	// recover family: a text that does not parse, given to Entry; then Docs are parsed
+	Bad    string    `json:"bad,omitempty"`
 	Sweep  bool      `json:"sweep"`
 	Cell   string    `json:"cell,omitempty"`
 }
